@@ -227,6 +227,7 @@ def check(ctx, report):
     header_line_spellings(ctx, report)
     spf_network_composer(ctx, report)
     spf_term_spellings(ctx, report)
+    media_type_case(ctx, report)
     report.floor('C18.R1', 24, 'named components')
 
 
@@ -890,3 +891,81 @@ def spf_term_spellings(ctx, report, rule='C18.R8'):
     except Unsupported as e:
         report.add(rule, g.construct + '@tabulation', 'the SPF record parser left the subset the tabulation understands: %s' % e)
     report.floor(rule, 60, 'spellings')
+
+
+# ---- R10: media types ----------------------------------------------------------------------------------------------------------
+
+def media_type_case(ctx, report, RULE='C18.R10'):
+    """RFC 9110 8.3.1: "The type and subtype tokens are case-insensitive."  FieldValueMimeType._parse is evaluated (sa.miniexec over
+    the ParserText model) on the case patterns of a media type: all of them give the object of the lower case spelling"""
+    import ast
+    from ..miniexec import Evaluator, Native, Raised, Unsupported, class_call_hook, exception_values
+    from ..textmodel import InvalidValue, TextParser
+    report.rule(RULE, 'media types: type and subtype are matched in any letter case and give one object')
+    c = ctx.model.try_cls('FieldValueMimeType')
+    f = c.methods.get('_parse') if c is not None else None
+    if f is None:
+        report.error(RULE + ': FieldValueMimeType._parse vanished')
+        return
+    report.touch(f)
+    MEMBERS = ('application', 'audio', 'font', 'example', 'image', 'message', 'model', 'multipart', 'text', 'video')
+
+    def registry(value):
+        if value not in MEMBERS:
+            raise InvalidValue(value)        # the primitives turn the ValueError of an enum lookup into InvalidValue
+        return ('member', value)
+
+    class Parser(TextParser):
+        pass
+    made = {}
+    exc = exception_values('InvalidValue', 'InvalidType')
+
+    def extra(n, ev):
+        d = ast.unparse(n.func)
+        if d == 'ParserText':
+            return Parser(ev.ev(n.args[0]))
+        if d in ('FieldValueMimeType', 'cls'):
+            kw = {}
+            for k in n.keywords:
+                if k.arg is None:
+                    kw.update(ev.ev(k.value).values)
+                else:
+                    kw[k.arg] = ev.ev(k.value)
+            args = [ev.ev(a) for a in n.args]
+            made['object'] = (tuple(args), tuple(sorted(kw.items())))
+            return ('mime',)
+        if d == 'MimeTypeRegistry':
+            return registry(*[ev.ev(a) for a in n.args])
+        return exc(n, ev)
+
+    def names(name):
+        if name == 'MimeTypeRegistry':
+            return registry
+        if name == 'str':
+            return str
+        raise Unsupported('free name ' + name)
+    hook = class_call_hook(c, extra, ctx.model)
+    nh = hook.name_hook_for(c.module, names)
+    problems = {}
+    try:
+        results = {}
+        for text in ('text/html', 'Text/HTML', 'TEXT/html', 'text/Html', 'application/JSON', 'application/json'):
+            report.count(RULE)
+            made.clear()
+            try:
+                Evaluator({'cls': 'cls', 'parsable': text.encode('ascii')}, hook, nh).function(f.node)
+                results[text] = made.get('object')
+            except Raised as e:
+                results[text] = 'refused (%s)' % e.what[:40]
+        for text, got in results.items():
+            want = results[text.lower()]
+            if got != want:
+                problems.setdefault('case', 'the media type %r gives %s, its lower case spelling %s (RFC 9110 8.3.1: type and subtype are case-insensitive)' % (text, got, want))
+        if isinstance(results['text/html'], str):
+            problems.setdefault('plain', 'the media type text/html is %s' % results['text/html'])
+    except Unsupported as e:
+        report.add(RULE, f.construct + '@tabulation', 'the media type parser left the subset the tabulation understands: %s' % e)
+        return
+    for k, v in sorted(problems.items()):
+        report.add(RULE, '%s@media-type[%s]' % (f.construct, k), v)
+    report.floor(RULE, 6, 'media type spellings')
